@@ -539,6 +539,11 @@ func c19ConcRecipe(g, k int) c19Call {
 		return c19Call{level: 0, msg: "shared \"record\"\n", attrs: c19SharedAttrs()}
 	}
 	c := c19Call{level: c19Levels()[(g+k)%6], msg: fmt.Sprintf("m%d.%d \"q\"\n\xff", g, k)}
+	if (g*5+k)%7 == 1 {
+		// a line longer than the usual 4 KiB buffer sizes: emitted in several writes unless
+		// the handler hands the whole line to the writer at once
+		c.msg += strings.Repeat("long line ", 450)
+	}
 	for i := 0; i < (g+k)%8; i++ {
 		c.attrs = append(c.attrs, slog.String(fmt.Sprintf("k%d", i), strings.Repeat("v\t", i)))
 	}
@@ -932,6 +937,12 @@ func genC19(rng *rand.Rand, tier string) (cases []string) {
 	for i := 0; i < nconc; i++ {
 		G, K := 2+rng.IntN(7), 1+rng.IntN(4)
 		R := pick(rng, 20, 50, 100)
+		switch i { // two fixed shapes (formerly corpus lines; the oracle field depends on the recipe)
+		case 0:
+			G, K, R = 2, 0, 20
+		case 1:
+			G, K, R = 8, 4, 50
+		}
 		orc, _, _ := c19ConcOracle(G, K)
 		cases = append(cases, fmt.Sprintf("C19.conc %d %d %d %s", G, K, R, strings.Join(orc, ",")))
 	}
